@@ -67,7 +67,9 @@ func (ds *defaultSpreaderPipeline) worker(ctx context.Context, wg *sync.WaitGrou
 				return
 			}
 
+			verifPoint("spread.recv")
 			ds.Lock()
+			verifPoint("spread.locked")
 			ds.spreadBranch(root)
 			ds.Unlock()
 		}
@@ -128,7 +130,9 @@ func (f *formattedSpreaderPipeline[T]) spread(ctx context.Context, w io.Writer, 
 				if !ok {
 					break BREAK
 				}
+				verifPoint("fspread.recv")
 				if err := encode(toFormattedNode(root, f.formattedRoot(root.name))); err != nil {
+					verifPoint("fspread.err")
 					errc <- err
 				}
 			}
@@ -164,6 +168,7 @@ func (cs *colorizeSpreaderPipeline) spread(ctx context.Context, w io.Writer, roo
 				if !ok {
 					break BREAK
 				}
+				verifPoint("cspread.recv")
 				cs.fileCounter.reset()
 				cs.dirCounter.reset()
 
